@@ -162,9 +162,9 @@ func c03(c *an.Ctx) {
 			}))
 			pf := f.Find(call(r, I+":processFiles"))
 			if !r.Failed() {
-				f.Guarded(r, undo, "undo only when not all new files exist", an.AtomLike(`^len\(p1\.NewFile\)==local\(\w+\)$`, false))
-				f.Guarded(r, undo, "undo only when all old files exist", an.AtomLike(`^len\(p1\.OldFile\)==local\(\w+\)$`, true))
-				f.Guarded(r, pf, "roll forward only when all new files exist", an.AtomLike(`^len\(p1\.NewFile\)==local\(\w+\)$`, true))
+				f.Guarded(r, undo, "undo only when not all new files exist", an.AtomLike(eqAny(`len\(p1\.NewFile\)`), false))
+				f.Guarded(r, undo, "undo only when all old files exist", an.AtomLike(eqAny(`len\(p1\.OldFile\)`), true))
+				f.Guarded(r, pf, "roll forward only when all new files exist", an.AtomLike(eqAny(`len\(p1\.NewFile\)`), true))
 			}
 		}
 		if f := fn(r, I+":procCompactLog"); f != nil {
@@ -269,9 +269,9 @@ func c03(c *an.Ctx) {
 	{
 		r := c.Rule("C03.R5", "K-WHOCALLS", I+": who may physically delete a data file / rename temp files into place / write the intent log")
 		c.WhoCalls(r, obj(r, I+":TSSPFile.Remove"), "TSSPFile.Remove", an.Allowed{
-			I + ":(*MmsTables).deleteFiles":        "replace protocol and drop (guarded by !Inuse, C04.R3)",
-			I + ":(*MmsTables).removeFile":         "out-of-order merge, after the replace (guarded by !Inuse, C04.R3)",
-			I + ":(*TableStoreGC).GC":              "deferred physical removal of files that were in use",
+			I + ":(*MmsTables).deleteFiles":         "replace protocol and drop (guarded by !Inuse, C04.R3)",
+			I + ":(*MmsTables).removeFile":          "out-of-order merge, after the replace (guarded by !Inuse, C04.R3)",
+			I + ":(*TableStoreGC).GC":               "deferred physical removal of files that were in use",
 			"engine:(*shard).DeleteDownSampleFiles": "down-sample replacement of whole shards",
 		})
 		c.WhoCalls(r, obj(r, I+":MmsTables.deleteFiles"), "MmsTables.deleteFiles", an.Allowed{
@@ -324,9 +324,9 @@ func c03(c *an.Ctx) {
 				cal := an.Callee(f.Info, ce)
 				return cal != nil && cal.Name() == "NewMergeContext"
 			}))
-			edges := f.GuardEdges(an.AtomLike(`^local\(\w+\)\.FileNameMerge\(\)==p2$`, false))
+			edges := f.GuardEdges(an.AtomLike(`^`+elemRe+`\.FileNameMerge\(\)==p2$`, false))
 			f.AfterEdgesMustPass(r, edges, newCtx, "merge-level change ⇒ a new merge context unless the current one is empty",
-				an.AtomLike(`^0<local\(\w+\)\.UnorderedLen\(\)$`, false), an.AtomLike(`^0==local\(\w+\)\.UnorderedLen\(\)$`, true))
+				an.AtomLike(`^0<`+elemRe+`\.UnorderedLen\(\)$`, false), an.AtomLike(`^0==`+elemRe+`\.UnorderedLen\(\)$`, true))
 		}
 		if f := fn(r, I+":MmsTables.genCompactGroup"); f != nil {
 			f.BranchReturns(r, an.AtomLike(`^recv\.busy\(`, true), an.MReturn("nil", func(f *an.Fn, rs *ast.ReturnStmt) bool {
